@@ -266,6 +266,8 @@ class Result:
 
 
 def load_known():
+    if os.environ.get("VERIF_SHOW_KNOWN") == "1":
+        return []          # diagnostic: report known findings as ordinary violations, with their replay files
     p = os.path.join(VERIF, "known_findings.json")
     if not os.path.exists(p):
         return []
